@@ -329,12 +329,18 @@ func walkExtern(x *X, s *State, c *ssa.CallCommon, a []Val, call ssa.Value) (Val
 				i2 := x.bound("i", "Int")
 				s.assume(fmt.Sprintf("(forall ((%s Int) (%s Int)) (! (=> (and (<= 0 %s) (< %s %s) (< %s %s)) (<= (select %s %s) (select %s %s))) :pattern ((select %s %s) (select %s %s))))",
 					i2, j, i2, i2, j, j, n, k1, i2, k1, j, k1, i2, k1, j))
+				if g.KSorts[1] == "Int" {
+					// lexicographic: within one first component, ascending in the second
+					s.assume(fmt.Sprintf("(forall ((%s Int) (%s Int)) (! (=> (and (<= 0 %s) (< %s %s) (< %s %s) (= (select %s %s) (select %s %s))) (< (select %s %s) (select %s %s))) :pattern ((select %s %s) (select %s %s))))",
+						i2, j, i2, i2, j, j, n, k1, i2, k1, j, k2, i2, k2, j, k2, i2, k2, j))
+				}
 			}
 			keyAt = func(jj string) []string { return []string{sSel(k1, jj), sSel(k2, jj)} }
-			s.lets[fmt.Sprintf("walk%d_pos", ord)] = Opq{pos}
+			s.lets[fmt.Sprintf("walkPos%d", ord)] = Opq{"fn:" + pos}
 		}
 	}
 	s.assume(fmt.Sprintf("(< %s 281474976710656)", n))
+	s.lets[fmt.Sprintf("walkN%d", ord)] = iv(n) // the listing length, for clauses after the walk
 	valAt := func(j string) Val { return g.rec(keyAt(j)).V }
 	var extraAt0 func(idx string) map[string]Val
 	extraAt := func(idx string) map[string]Val {
@@ -364,6 +370,23 @@ func walkExtern(x *X, s *State, c *ssa.CallCommon, a []Val, call ssa.Value) (Val
 	// havoc the captured cells the callback writes
 	for bi, b := range clo.Bind {
 		if p, ok := b.(Ptr); ok && p.Obj != 0 && closureWrites(clo.Fn, bi) {
+			if flds, indirect, precise := closureWrittenFields(clo.Fn, bi); precise {
+				// the callback writes only these fields of the captured struct pointer
+				tp := p
+				if indirect {
+					q, isP := pathGet(s.objs[p.Obj], p.Path).(Ptr)
+					if !isP || q.Obj == 0 {
+						x.fail("Walk callback writes through a captured pointer the engine cannot resolve")
+					}
+					tp = q
+				}
+				for _, f := range flds {
+					fp := append(append([]string{}, tp.Path...), f)
+					cur := pathGet(s.objs[tp.Obj], fp)
+					s.objs[tp.Obj] = pathSet(s.objs[tp.Obj], fp, x.havocLike(s, "w.cell", nil, cur))
+				}
+				continue
+			}
 			cur := pathGet(s.objs[p.Obj], p.Path)
 			s.objs[p.Obj] = pathSet(s.objs[p.Obj], p.Path, x.havocLike(s, "w.cell", nil, cur))
 		}
@@ -375,6 +398,14 @@ func walkExtern(x *X, s *State, c *ssa.CallCommon, a []Val, call ssa.Value) (Val
 	sx.assume(sEq(idx, n))
 	for _, cl := range invs {
 		sx.assume(x.evalClause(sx, cl, evalCtx{extra: extraAt(idx), assuming: true}))
+	}
+	// reachability witness: the state after the walk must admit a non-empty listing (guards against an invariant or a
+	// havoc that silently pins the listing to the empty one)
+	{
+		wo := &Oblig{Name: fmt.Sprintf("%s#vacuity.walk%d-exit-nonempty.%d", x.key, ord, len(x.obligs)), Fn: x.key, Kind: "vacuity", Goal: "false",
+			PC: append(append([]string{}, sx.pc...), sApp(">", n, "0")), Vacuity: true}
+		wo.Decls = x.decls[:len(x.decls):len(x.decls)]
+		x.obligs = append(x.obligs, wo)
 	}
 	// iteration state
 	s.assume(sApp("<", idx, n))
@@ -425,6 +456,81 @@ func closureWrites(fn *ssa.Function, bi int) bool {
 		}
 	}
 	return false
+}
+
+// closureWrittenFields: when the captured variable is a pointer to a struct (or, for a variable captured by reference,
+// a pointer to such a pointer that the callback only loads) used only through field addresses that are loaded or
+// stored directly, the set of fields stored to. indirect reports the by-reference case.
+func closureWrittenFields(fn *ssa.Function, bi int) (flds []string, indirect bool, precise bool) {
+	fv := fn.FreeVars[bi]
+	pt, ok := fv.Type().Underlying().(*types.Pointer)
+	if !ok {
+		return nil, false, false
+	}
+	var roots []ssa.Value
+	st, ok := pt.Elem().Underlying().(*types.Struct)
+	if ok {
+		roots = []ssa.Value{fv}
+	} else {
+		pt2, ok2 := pt.Elem().Underlying().(*types.Pointer)
+		if !ok2 {
+			return nil, false, false
+		}
+		st, ok = pt2.Elem().Underlying().(*types.Struct)
+		if !ok {
+			return nil, false, false
+		}
+		indirect = true
+		if refs := fv.Referrers(); refs != nil {
+			for _, r := range *refs {
+				switch u := r.(type) {
+				case *ssa.UnOp:
+					roots = append(roots, u)
+				case *ssa.DebugRef:
+				default:
+					return nil, false, false // the variable itself is reassigned or escapes
+				}
+			}
+		}
+	}
+	seen := map[string]bool{}
+	for _, root := range roots {
+		refs := root.Referrers()
+		if refs == nil {
+			continue
+		}
+		for _, r := range *refs {
+			fa, ok := r.(*ssa.FieldAddr)
+			if !ok {
+				if _, dbg := r.(*ssa.DebugRef); dbg {
+					continue
+				}
+				return nil, false, false
+			}
+			frefs := fa.Referrers()
+			if frefs == nil {
+				continue
+			}
+			for _, fr := range *frefs {
+				switch u := fr.(type) {
+				case *ssa.UnOp: // load
+				case *ssa.DebugRef:
+				case *ssa.Store:
+					if u.Addr != fa {
+						return nil, false, false
+					}
+					name := st.Field(fa.Field).Name()
+					if !seen[name] {
+						seen[name] = true
+						flds = append(flds, name)
+					}
+				default:
+					return nil, false, false
+				}
+			}
+		}
+	}
+	return flds, indirect, true
 }
 
 func (k *walkKont) resume(x *X, s *State, res []Val) {
